@@ -1,9 +1,10 @@
 (* Wire glue for the tree model of the OpenAPI conversion.
    "oast <node>"   node ::= V <hex example> <leaf>
+                          | R <hex example> <n> <0|1 nullable> alt^n            alt ::= L <leaf> | o | a
                           | A <n> <min|-> <max|-> <0|1 nullable> node^n
                           | O <n> <ap> <0|1 nullable> (<hex key> <0|1 optional> node)^n        ap ::= f | y | ti | tn | ts | tb
    -> the Schema Object in a canonical spelling:
-      L(<keywords of oasx, separated by ;>)   A(mn=..;mx=..;nullable;[node,..])   O(req=[hexkey,..];ap=..;nullable;{hexkey:node,..}) *)
+      L(<keywords of oasx, separated by ;>)   Y(nullable;[node,..])   A(mn=..;mx=..;nullable;[node,..])   O(req=[hexkey,..];ap=..;nullable;{hexkey:node,..}) *)
 From Coq Require Import String List ZArith NArith Bool.
 From JS Require Import Base.Wire Base.Res Model.RuleSem Model.OasSem Model.OasLeaf Model.OasTree Extract.RunNum Extract.RunRules.
 Import ListNotations.
@@ -22,6 +23,25 @@ Fixpoint parse_snode (fuel : nat) (l : list bytes) : option (snode * list bytes)
     match l with
     | [86%N] :: h :: r =>
       match unhex_dash h, parse_leaf r with Some ex, Some (lf, rest) => Some (SLeaf ex lf, rest) | _, _ => None end
+    | [82%N] :: h :: n :: nu :: r =>
+      match unhex_dash h, dec n with
+      | Some ex, Some cnt =>
+        match (fix alts (k : nat) (l : list bytes) : option (list oralt * list bytes) :=
+                 match k with
+                 | O => Some ([], l)
+                 | S k' =>
+                   match l with
+                   | [76%N] :: l1 => match parse_leaf l1 with
+                                     | Some (lf, l2) => match alts k' l2 with Some (xs, l3) => Some (OALeaf lf :: xs, l3) | None => None end
+                                     | None => None end
+                   | [111%N] :: l1 => match alts k' l1 with Some (xs, l3) => Some (OAObject :: xs, l3) | None => None end
+                   | [97%N] :: l1 => match alts k' l1 with Some (xs, l3) => Some (OAArray :: xs, l3) | None => None end
+                   | _ => None
+                   end
+                 end) (N.to_nat cnt) r with
+        | Some (xs, rest) => Some (SOr ex xs (beqb nu [49%N]), rest)
+        | None => None end
+      | _, _ => None end
     | [65%N] :: n :: a :: b :: nu :: r =>
       match dec n, opt_z a, opt_z b with
       | Some cnt, Some mn, Some mx =>
@@ -72,6 +92,7 @@ Definition show_optz (name : bytes) (z : option Z) : list bytes := match z with 
 Fixpoint show_otree (t : otree) : bytes :=
   match t with
   | OLeaf o => B"L(" ++ show_oasx o ++ B")"
+  | OAnyOf alts nu => B"Y(" ++ join [59%N] ((if nu then [B"nullable"] else []) ++ [B"[" ++ join [44%N] (map show_otree alts) ++ B"]"]) ++ B")"
   | OArr items mn mx nu =>
     B"A(" ++ join [59%N] (show_optz B"mn=" mn ++ show_optz B"mx=" mx ++ (if nu then [B"nullable"] else []) ++
                           [B"[" ++ join [44%N] (map show_otree items) ++ B"]"]) ++ B")"
